@@ -207,6 +207,8 @@ inline Plan Gen(uint64_t seed)
    const int victims = 1 + (int) cfg.below(2); const int witness = 1 + victims; const int clients = witness + 1;
    const bool faultFree = cfg.oneIn(5);
    p.push_back("cfg prop=C07 clients=" + I(clients) + " hosts=2 faultfree=" + I(faultFree) + " hostile=0 witness=" + I(witness));
+   // one run in four: every server-side transport has an output stall limit (as TCP sockets do), and some quiescent points are reached over a slow link
+   Rng sr(seed, "stall"); const bool stallRun = sr.oneIn(4); if (stallRun) p.push_back("cfg stall=" + U(sr.oneIn(3) ? 3000000ULL : 180000000ULL));
    GenState g(clients, 2);
    for (int c=0; c<clients; c++) GenConnect(p, g, cfg, fl, c, faultFree || (c == witness), 0);
    p.push_back("step 2");
@@ -234,7 +236,7 @@ inline Plan Gen(uint64_t seed)
       else if (k < 90) {const int v = 1 + (int) wl.below((uint32_t) victims); p.push_back("read " + I(v));}
       else GenPump(p, g, wl);
       if (wl.pct(45)) {p.push_back("send " + I(witness) + " ping " + I(++ping)); p.push_back("step " + I(2 + wl.below(4)));}
-      if ((++sinceQuiesce >= 12 + (int) wl.below(12))||(wl.oneIn(20))) {p.push_back("quiesce"); sinceQuiesce = 0;}
+      if ((++sinceQuiesce >= 12 + (int) wl.below(12))||(wl.oneIn(20))) {p.push_back(((stallRun)&&(sr.oneIn(2))) ? ("slowq " + I((int) sr.below((uint32_t) clients)) + " " + U(sr.oneIn(2) ? 8 : (16 + sr.below(100))) + " " + I(8 + (int) sr.below(40))) : std::string("quiesce")); sinceQuiesce = 0;}
    }
    p.push_back("send " + I(witness) + " ping " + I(++ping)); p.push_back("step 6");
    return p;
